@@ -10,9 +10,11 @@
    means `eqb x y = true`; the `_eq` variants restate the law with Leibniz `=` for equality
    tests that reflect it (u8, u32, bool, ...).
 
-   Recorded exceptions (the statement is FALSE of the code; `_refuted` theorems + replays):
-     * linearity: tests q(f a b) == g (q b) (q a)           (known_findings.d/C09.txt)
+   Recorded exceptions (the statement is FALSE of the code; `_refuted` theorems + replays,
+   known_findings.d/C09.txt):
      * ConfidenceScore: binary64 `*` is not associative
+     * Cost::mul in release builds: unchecked `a + b` wraps
+   (the former linearity exception is fixed, see C09_linearity)
    FuzzyLogic is proved for all binary64 values in [0,1] from the standard library's
    FloatAxioms specification of <?, <=?, =? (axioms ltb_spec, leb_spec, eqb_spec).
    Not proved (correspondence check only): ConfidenceScore's laws other than the refuted one
@@ -171,37 +173,22 @@ Example C09_field_ex :   (* GF(2) *)
 Proof. vm_compute. reflexivity. Qed.
 
 (* ------------------------------------------------------------------ linearity, bilinearity *)
-(* what `linearity` decides: the anti-homomorphism law (arguments of g swapped) *)
-Theorem C09_linearity_tests_swapped_law : forall (S R : Type) (eqbR : R -> R -> bool) items
+(* Former finding, fixed in /repo commit 2405c2befba: `linearity` compared q (f a b) with
+   g (q b) (q a) (arguments of g swapped).  Former witnesses (C09_linearity_refuted /
+   C09_linearity_accepts_nonlinear_refuted): items [0;1;2], q = id, f = g = left projection
+   gave Err although q is linear; f = left, g = right projection gave Ok although q is not.
+   They are replayed first on every run (corpus/C09/linearity_swapped.json). *)
+Theorem C09_linearity : forall (S R : Type) (eqbR : R -> R -> bool) items
     (f : S -> S -> S) (g : R -> R -> R) (q : S -> R),
   linearity eqbR items f g q = Ok <->
-  forall a b, In a items -> In b items -> eqbR (q (f a b)) (g (q b) (q a)) = true.
-Proof. exact (@linearity_ok_swapped). Qed.
-Print Assumptions C09_linearity_tests_swapped_law.
+  forall a b, In a items -> In b items -> eqbR (q (f a b)) (g (q a) (q b)) = true.
+Proof. exact (@linearity_ok). Qed.
+Print Assumptions C09_linearity.
 
-(* the property's statement for `linearity`, proved only where g commutes on the image of
-   the items; missing: non-commutative g, where the statement is false (next two theorems) *)
-Theorem C09_linearity_partial : forall (S R : Type) (eqbR : R -> R -> bool) items
-    (f : S -> S -> S) (g : R -> R -> R) (q : S -> R),
-  (forall a b, In a items -> In b items -> g (q a) (q b) = g (q b) (q a)) ->
-  (linearity eqbR items f g q = Ok <->
-   forall a b, In a items -> In b items -> eqbR (q (f a b)) (g (q a) (q b)) = true).
-Proof. exact (@linearity_ok_commutative). Qed.
-Print Assumptions C09_linearity_partial.
-
-Theorem C09_linearity_refuted :
-  exists (items : list N) f g q,
-    (forall a b, In a items -> In b items -> N.eqb (q (f a b)) (g (q a) (q b)) = true) /\
-    linearity N.eqb items f g q = Err ELinearity.
-Proof. exact linearity_rejects_linear. Qed.
-Print Assumptions C09_linearity_refuted.
-
-Theorem C09_linearity_accepts_nonlinear_refuted :
-  exists (items : list N) f g q,
-    ~ (forall a b, In a items -> In b items -> N.eqb (q (f a b)) (g (q a) (q b)) = true) /\
-    linearity N.eqb items f g q = Ok.
-Proof. exact linearity_accepts_nonlinear. Qed.
-Print Assumptions C09_linearity_accepts_nonlinear_refuted.
+Example C09_linearity_ex :     (* the former false rejection / false acceptance *)
+  linearity N.eqb [0; 1; 2]%N lproj lproj (fun x => x) = Ok /\
+  linearity N.eqb [0; 1; 2]%N lproj rproj (fun x => x) = Err ELinearity.
+Proof. vm_compute. split; reflexivity. Qed.
 
 Theorem C09_bilinearity : forall (S R T : Type) (eqbR : R -> R -> bool) items_f items_h
     (f : S -> S -> S) (h : T -> T -> T) (g : R -> R -> R) (q : S -> T -> R),
